@@ -50,7 +50,7 @@ func (ft *FT) monitorFor(v ssa.Value) (*Monitor, ssa.Value) {
 	stt := bt.Underlying().(*types.Struct)
 	fname := stt.Field(fa.Field).Name()
 	for _, m := range ft.eng.cons.Monitors {
-		if m.Type == n.Obj().Name() && m.Field == fname && n.Obj().Pkg() != nil && n.Obj().Pkg().Name() == m.PkgName {
+		if m.Type == n.Obj().Name() && m.Field == fname && n.Obj().Pkg() != nil && pkgKey(n.Obj().Pkg()) == m.PkgName {
 			return m, fa.X
 		}
 	}
@@ -165,6 +165,20 @@ func registerModels(e *Engine) {
 					ft.oblige("unlock-held", pos, "", guard, eq(app("select", h, l), "2"), lockDiscipline)
 					if v := lockArg(c); v != nil {
 						ft.lockRelease(st, guard, v, pos, true)
+					}
+					if ft.con != nil && len(ft.con.AtUnlock) > 0 {
+						ctx := ft.specCtx(st, ft.entry)
+						if ft.curBlk != nil {
+							ctx.local = ft.localResolver(ft.curBlk, false, nil, nil, ctx.local)
+						}
+						for _, cl := range ft.con.AtUnlock {
+							t, err := ctx.boolExpr(cl.Expr)
+							if err != nil {
+								ft.errf("atunlock %q: %v", cl.Text, err)
+								continue
+							}
+							ft.oblige("at-unlock", pos, cl.Text+" @ "+ft.srcText(pos), guard, t, true)
+						}
 					}
 					ft.set(st, hk, app("store", ft.get(st, hk), l, "0"))
 				case "runlock":
@@ -282,7 +296,7 @@ func (ft *FT) guardedField(fa *ssa.FieldAddr, write bool, pos token.Pos, guard T
 	}
 	fname := stt.Field(fa.Field).Name()
 	for _, m := range ft.eng.cons.Monitors {
-		if m.Type != n.Obj().Name() || n.Obj().Pkg() == nil || n.Obj().Pkg().Name() != m.PkgName {
+		if m.Type != n.Obj().Name() || n.Obj().Pkg() == nil || pkgKey(n.Obj().Pkg()) != m.PkgName {
 			continue
 		}
 		guarded := false
